@@ -54,6 +54,9 @@ func (r *runner) sample(bucket string) bool {
 	if strings.HasSuffix(bucket, "param-id") {
 		return true
 	}
+	if strings.HasPrefix(bucket, "seq/") { // the direct reused-vs-fresh comparison runs on every body; fewer lines for the oracle
+		return n <= r.corrAll || n%(r.corrEvery*3) == 0
+	}
 	if strings.HasSuffix(bucket, "fill-long") { // long constant bodies: the guard answers; few are enough
 		return n <= 12 || n%(r.corrEvery*8) == 0
 	}
